@@ -22,7 +22,7 @@ import (
 var out = bufio.NewWriterSize(os.Stdout, 1<<20)
 
 type tools struct {
-	segmenter, reseg, combine, tmp string
+	segmenter, reseg, combine, combdrv, tmp string
 }
 
 func main() {
@@ -37,6 +37,7 @@ func main() {
 	fs.StringVar(&t.segmenter, "segmenter", "", "built examples/segmenter")
 	fs.StringVar(&t.reseg, "reseg", "", "built examples/resegmenter")
 	fs.StringVar(&t.combine, "combine", "", "built examples/combine-segs")
+	fs.StringVar(&t.combdrv, "combdrv", "", "tagged test binary of examples/combine-segs")
 	fs.StringVar(&t.tmp, "tmp", "", "scratch directory")
 	w := fs.String("w", "", "witness")
 	_ = fs.Parse(os.Args[2:])
